@@ -147,7 +147,60 @@ def run_fault(cfg, source, k, n, twin, prefix=None, folder=False):
     return v, ctl, True
 
 
+def early_stop_cell(cell):
+    """No fault: the session is left through the convergence `break` under the RL scheduler. For every schedule with <= bound
+    preemptions: calibrate() returns early, no thread and no message is left, the next calibrate() works."""
+    res = {"evaluations": 0, "nontrivial": 0, "states": 0, "transitions": 0, "traces": 0, "stats": {}, "outcomes": set(), "violations": [], "samples": []}
+    cfg = dict(cell["cfg"], convergence_precision=0, model="const2", real_const=0.25)  # the loss is exactly 0 from the first batch on
+
+    def one(prefix):
+        models.reset()
+        out = {}
+
+        def go():
+            cal = C.build(cfg)
+            with quiet():
+                cal.calibrate(cell["n"])
+            out["b1"] = cal.current_batch_index
+            out["alive"] = rh.vt.live_threads()
+            out["queues"] = rh.queue_sizes()
+            with quiet():
+                cal.calibrate(1)
+            out["b2"] = cal.current_batch_index
+            out["losses"] = cal.losses_samp.copy()
+            return cal
+
+        rh.vt.reset_registry()
+        ctl, _, exc, leaked = rh.controlled(go, prefix)
+        return ctl, (out, exc, leaked)
+
+    for prefix, ctl, (out, exc, leaked) in ex.explore(one, bound=cell.get("bound", 1), max_execs=600):
+        res["evaluations"] += 1
+        res["traces"] += 1
+        res["transitions"] += ctl.n_points
+        res["nontrivial"] += 1
+        vs = []
+        if exc is not None:
+            vs.append(("deadlock" if "deadlock" in str(exc) else "early-stop-raises", f"{type(exc).__name__}: {exc}"))
+        else:
+            if out["alive"] or leaked:
+                vs.append(("thread-left-running", f"after an early stop: live controlled threads {out['alive'] or leaked}"))
+            if any(out["queues"]):
+                vs.append(("leftover-message", f"after an early stop the queues hold {out['queues']} messages"))
+            if out["b2"] != out["b1"] + 1:
+                vs.append(("scheduler-unusable", f"batch index {out['b1']} -> {out['b2']} over the next calibrate(1)"))
+            res["outcomes"].add(("early-stop", out["b1"] < cell["n"]))
+        for key, what in vs:
+            if sum(1 for x in res["violations"] if x["key"] == key) < 1:
+                res["violations"].append({"key": key, "what": f"[RL scheduler, convergence break, schedule {list(ctl.choices)}] {what}", "case": {"mode": "early-stop", "cfg": cell["cfg"], "n": cell["n"], "schedule": list(ctl.choices)}})
+    res["states"] = res["evaluations"]
+    res["outcomes"] = sorted(res["outcomes"], key=repr)
+    return res
+
+
 def run_cell(cell):
+    if cell.get("kind") == "early-stop":
+        return early_stop_cell(cell)
     res = {"evaluations": 0, "nontrivial": 0, "states": 0, "transitions": 0, "traces": 0, "stats": {}, "outcomes": set(), "violations": [], "samples": []}
     cfg, n, rl = cell["cfg"], cell["n"], "scheduler" in cell["cfg"]
     twin = fault_free(cfg, n, rl)
@@ -187,6 +240,9 @@ def run_cell(cell):
 
 
 def replay_case(case):
+    if case.get("mode") == "early-stop":
+        r = early_stop_cell({"cfg": case["cfg"], "n": case["n"], "bound": 1})
+        return [{"key": v["key"], "what": v["what"]} for v in r["violations"]]
     rl = "scheduler" in case["cfg"]
     twin = fault_free(case["cfg"], case["n"], rl)
     vs, _, _ = run_fault(case["cfg"], case["source"], case["k"], case["n"], twin, prefix=case.get("schedule"), folder=case.get("folder", False))
@@ -208,7 +264,8 @@ def main(ctx):
             cells.append({"cfg": base_cfg("rr", S, ens), "n": n, "faults": allf[i:i + 6], "folder": folder})
     for i in range(0, len(allf), 2):
         cells.append({"cfg": base_cfg("rl", S, ens), "n": n, "faults": allf[i:i + 2], "bound": 1 if ctx.quick else 2})
-    ctx.bounds = {"batches": n, "ensemble": ens, "lineup": [s["cls"] for s in LINEUP], "fault_sources": ["model", "loss", "sampler"],
+    cells.append({"kind": "early-stop", "cfg": base_cfg("rl", S, 1), "n": 6, "bound": 1 if ctx.quick else 2})
+    ctx.bounds = {"batches": n, "ensemble": ens, "early_stop": "RL scheduler left through the convergence break (no fault), every schedule with <= 1 (2) preemptions", "lineup": [s["cls"] for s in LINEUP], "fault_sources": ["model", "loss", "sampler"],
                   "fault_positions": len(allf), "rr": "with and without saving folder", "rl": f"every schedule with <= {1 if ctx.quick else 2} preemption(s), capped at 400 per fault position"}
     ctx.rule = "one execution per (scheduler, folder, fault source, invocation index[, schedule]); every one injects exactly one fault"
     ctx.assumptions = ["n_jobs=1 (the fault position must be owned)", "RL + saving folder is not reachable (C04 known finding)"]
@@ -218,3 +275,4 @@ def main(ctx):
         raise HarnessError(str(e)) from e
     ctx.require(ctx.evaluations > 100, "too few fault positions")
     ctx.require(any(o[0] == "rl" for o in ctx.outcomes) and any(o[0] == "rr" for o in ctx.outcomes), "one scheduler kind was not exercised")
+    ctx.require(("early-stop", True) in ctx.outcomes, "the convergence break was never taken under the RL scheduler")
